@@ -1,6 +1,7 @@
 package checks
 
 import (
+	"context"
 	"errors"
 	"fmt"
 	"strings"
@@ -16,6 +17,38 @@ import (
 // ---------------------------------------------------------------- C01 concurrent
 // 2 (thorough 3) threads each play a word - illegal suffixes included - into one destination obtained
 // from a safe constructor, Serialize or a subject; downstream nothing or an unsafe operator.
+
+// c01Borrowed: the concurrent drivers of C02 and C05 (two or three producers feeding one operator), judged
+// by the grammar: every recorder sees values, at most one terminal, then nothing.
+func c01Borrowed(tier string) []fw.Scenario {
+	var scns []fw.Scenario
+	for _, prop := range []string{"C02", "C05"} {
+		for _, sc := range Registry[prop](tier) {
+			sc := sc
+			if prop == "C05" && !strings.HasPrefix(sc.ID, "C05/conc/") {
+				continue
+			}
+			if prop == "C02" && !strings.HasSuffix(sc.ID, "/bare") {
+				continue
+			}
+			orig := sc.Run
+			grp := sc.Group
+			scns = append(scns, fw.Scenario{ID: "C01/conc/" + sc.ID, Group: sc.Group, Run: func(c *fw.Ctx) {
+				fw.AltCheck = func(recs []*h.Rec, r *vrt.Result) []fw.Violation {
+					for _, rec := range recs {
+						if g := h.GrammarError(rec.Events()); g != "" {
+							return []fw.Violation{fw.V("concurrent/"+grp+"/grammar/"+grammarClass(rec.Events()), fmt.Sprintf("observer %s: %s", rec.Name, g))}
+						}
+					}
+					return nil
+				}
+				defer func() { fw.AltCheck = nil }()
+				orig(c)
+			}})
+		}
+	}
+	return scns
+}
 
 func c01Concurrent(tier string) []fw.Scenario {
 	bound := 2
@@ -408,6 +441,113 @@ func c03MultiSourcePanics() []fw.Scenario {
 	return scns
 }
 
+// c03HigherOrderAsyncOuter: higher-order operators whose OUTER observable delivers the inner observables
+// (and its completion) after Subscribe has returned. Inner observables that emit while they are being
+// subscribed can end the output in the middle of that phase; whatever was subscribed must be released.
+func c03HigherOrderAsyncOuter() []fw.Scenario {
+	type hoOp struct {
+		name string
+		mk   func(outer ro.Observable[ro.Observable[int]]) func(rec *h.Rec) ro.Subscription
+	}
+	anyRec := func(o ro.Observable[[]int]) func(rec *h.Rec) ro.Subscription {
+		return func(rec *h.Rec) ro.Subscription { return o.Subscribe(h.Observer[[]int](rec)) }
+	}
+	intRec := func(o ro.Observable[int]) func(rec *h.Rec) ro.Subscription {
+		return func(rec *h.Rec) ro.Subscription { return o.Subscribe(h.Observer[int](rec)) }
+	}
+	ops := []hoOp{
+		{"ZipAll", func(o ro.Observable[ro.Observable[int]]) func(*h.Rec) ro.Subscription {
+			return anyRec(ro.ZipAll[int]()(o))
+		}},
+		{"CombineLatestAll", func(o ro.Observable[ro.Observable[int]]) func(*h.Rec) ro.Subscription {
+			return anyRec(ro.CombineLatestAll[int]()(o))
+		}},
+		{"MergeAll", func(o ro.Observable[ro.Observable[int]]) func(*h.Rec) ro.Subscription {
+			return intRec(ro.MergeAll[int]()(o))
+		}},
+		{"MergeAll|Take(1)", func(o ro.Observable[ro.Observable[int]]) func(*h.Rec) ro.Subscription {
+			return intRec(ro.Take[int](1)(ro.MergeAll[int]()(o)))
+		}},
+		{"ZipAll|Take(1)", func(o ro.Observable[ro.Observable[int]]) func(*h.Rec) ro.Subscription {
+			return anyRec(ro.Take[[]int](1)(ro.ZipAll[int]()(o)))
+		}},
+		{"CombineLatestAll|Take(1)", func(o ro.Observable[ro.Observable[int]]) func(*h.Rec) ro.Subscription {
+			return anyRec(ro.Take[[]int](1)(ro.CombineLatestAll[int]()(o)))
+		}},
+	}
+	// inner kinds: j = Just(7) (emits and completes while being subscribed), o = emits one value while being
+	// subscribed and stays open, p = pushed (silent, stays open)
+	shapes := []string{"jo", "oj", "oo", "op", "po", "jp", "joo"}
+	var scns []fw.Scenario
+	for _, op := range ops {
+		op := op
+		scns = append(scns, fw.Scenario{ID: "C03/higher-order-async-outer/" + op.name, Group: "higher-order", Run: func(c *fw.Ctx) {
+			for _, shape := range shapes {
+				for _, end := range []string{"outer-completes", "outer-stays-open"} {
+					shape, end := shape, end
+					nm := fmt.Sprintf("%s over inner observables %q, %s, then Unsubscribe", op.name, shape, end)
+					c.Explore(fw.Case{Name: nm, Opts: vrt.Options{Horizon: 40000}, Make: func() fw.Instance {
+						rec := h.NewRec("out")
+						var inners []*h.Src
+						var escaped string
+						body := func() {
+							outer, po := h.Pushed[ro.Observable[int]](h.NewSrc("outer"), h.Unsafe)
+							var subscription ro.Subscription
+							guard(&escaped, "Subscribe", func() { subscription = op.mk(outer)(rec) })
+							guard(&escaped, "Next", func() {
+								for i, k := range shape {
+									sc := h.NewSrc(fmt.Sprintf("inner%d(%c)", i, k))
+									inners = append(inners, sc)
+									switch k {
+									case 'j':
+										po.Next(h.Script[int](sc, h.Unsafe, []h.Ev{h.Nx(7), h.Co()}))
+									case 'o':
+										po.Next(h.Script[int](sc, h.Unsafe, []h.Ev{h.Nx(i + 1)}))
+									default:
+										o, _ := h.Pushed[int](sc, h.Unsafe)
+										po.Next(o)
+									}
+								}
+								if end == "outer-completes" {
+									po.Complete()
+								}
+							})
+							vrt.Settle()
+							if subscription != nil {
+								guard(&escaped, "Unsubscribe", func() { subscription.Unsubscribe() })
+							}
+							vrt.Settle()
+						}
+						return fw.Instance{Body: body, Outcome: rec.Trace, Check: func(r *vrt.Result) []fw.Violation {
+							var out []fw.Violation
+							sig := "higher-order/" + op.name
+							if escaped != "" {
+								out = append(out, fw.V(sig+"/panic-escaped/call", nm+": "+escaped))
+							}
+							for _, sc := range inners {
+								n, t, _, _ := sc.Get()
+								if n != t {
+									cls := "skipped"
+									if t > n {
+										cls = "repeated"
+									}
+									out = append(out, fw.V(sig+"/inner-released-exactly-once/"+cls, fmt.Sprintf("%s: %s was subscribed %d times and released %d times (trace [%s])", nm, sc.Name, n, t, rec.Trace())))
+									break
+								}
+							}
+							if bl := blockedExcept(r, ""); bl != "" {
+								out = append(out, fw.V(sig+"/blocked/"+bl, nm+": "+bl))
+							}
+							return out
+						}}
+					}})
+				}
+			}
+		}})
+	}
+	return scns
+}
+
 // ---------------------------------------------------------------- C08 hand-off
 // ObserveOn(n), SubscribeOn(n), ToChannel(n): output = input in order, terminal last, and the producer is
 // never ahead of the consumer by more than n + 2.
@@ -745,6 +885,77 @@ func ctxOutcomeOf(rec *h.Rec) string {
 	return sb.String()
 }
 
+// c09ShareReconnect: a shared observable that has been reset connects its source again with the context of
+// the subscriber that causes the new connection, not with a context remembered from an earlier one.
+func c09ShareReconnect() []fw.Scenario {
+	type cfg struct {
+		name  string
+		build func(ro.Observable[int]) ro.Observable[int]
+	}
+	cfgs := []cfg{
+		{"Share()", func(s ro.Observable[int]) ro.Observable[int] { return ro.Share[int]()(s) }},
+		{"ShareReplayWithConfig(1,zero)", func(s ro.Observable[int]) ro.Observable[int] {
+			return ro.ShareReplayWithConfig[int](1, ro.ShareReplayConfig{ResetOnRefCountZero: true})(s)
+		}},
+		{"ShareWithConfig(publish,all resets)", func(s ro.Observable[int]) ro.Observable[int] {
+			return ro.ShareWithConfig(ro.ShareConfig[int]{Connector: func() ro.Subject[int] { return ro.NewPublishSubject[int]() }, ResetOnError: true, ResetOnComplete: true, ResetOnRefCountZero: true})(s)
+		}},
+	}
+	var scns []fw.Scenario
+	for _, cf := range cfgs {
+		cf := cf
+		scns = append(scns, fw.Scenario{ID: "C09/share-reconnect/" + cf.name, Group: "Share", Run: func(c *fw.Ctx) {
+			for _, how := range []string{"unsubscribe", "source-completes", "source-fails"} {
+				how := how
+				if how == "source-completes" && strings.HasPrefix(cf.name, "ShareReplayWithConfig") {
+					continue // (no reset on completion in that configuration: later subscribers replay, nothing reconnects)
+				}
+				nm := cf.name + ": subscribe(ctx a), " + how + ", subscribe(ctx b), subscribe(ctx c)"
+				c.Explore(fw.Case{Name: nm, Make: func() fw.Instance {
+					recs := []*h.Rec{h.NewRec("a"), h.NewRec("b"), h.NewRec("c")}
+					src := h.NewSrc("src")
+					body := func() {
+						o, push := h.Pushed[int](src, h.Unsafe)
+						shared := cf.build(o)
+						with := func(m string) ctxT { return context.WithValue(context.Background(), h.KeySub, m) }
+						subs := make([]ro.Subscription, 3)
+						for i, m := range []string{"a", "b", "c"} {
+							subs[i] = shared.SubscribeWithContext(with(m), h.Observer[int](recs[i]))
+							push.Next(i + 1)
+							switch how {
+							case "unsubscribe":
+								subs[i].Unsubscribe()
+							case "source-completes":
+								push.Complete()
+							default:
+								push.Error(h.ErrSrc)
+							}
+						}
+					}
+					return fw.Instance{Body: body, Outcome: func() string { return recs[0].Trace() + "|" + recs[1].Trace() + "|" + recs[2].Trace() }, Check: func(r *vrt.Result) []fw.Violation {
+						var out []fw.Violation
+						sig := "share-reconnect/" + cf.name
+						want := []interface{}{"a", "b", "c"}
+						if fmt.Sprint(src.SubMarks) != fmt.Sprint(want) {
+							out = append(out, fw.V(sig+"/source-connected-with-stale-context/"+how, fmt.Sprintf("%s: the source was subscribed with the context markers %v, the subscribers that caused the connections carried %v", nm, src.SubMarks, want)))
+						}
+						for i, rec := range recs {
+							for _, en := range rec.Log {
+								if en.K == h.N && en.Sub != want[i] {
+									out = append(out, fw.V(sig+"/value-with-another-subscribers-context/"+how, fmt.Sprintf("%s: subscriber %v received %s with the context marker %v", nm, want[i], en.Ev.Short(), en.Sub)))
+									return out
+								}
+							}
+						}
+						return out
+					}}
+				}})
+			}
+		}})
+	}
+	return scns
+}
+
 func c09Extra(tier string) []fw.Scenario {
 	type prog struct {
 		name string
@@ -792,6 +1003,7 @@ func c09Extra(tier string) []fw.Scenario {
 		{"Just|Retry", mkObs(func() ro.Observable[int] { return ro.Retry[int]()(ro.Just(1)) })},
 	}
 	scns := c09ItemContexts(tier)
+	scns = append(scns, c09ShareReconnect()...)
 	// the concurrent drivers of C02 and C05, judged by the context clauses: a context can also be lost in
 	// a window between two goroutines (every subscription of those drivers carries the subscription marker)
 	ctxOracle := func(recs []*h.Rec, r *vrt.Result) []fw.Violation {
